@@ -11,7 +11,7 @@ ID = "C15"
 LEVEL = "exploration"
 RULE = ("Hypothesis-generated forms (broad/text profiles weighted towards labels, hints and itext values that mix text with "
         "1-3 ${refs} in every position, leading/trailing/double spaces, table-list helper labels) converted with "
-        "pretty_print False and True; non-trivial = accepted form whose output has >=1 mixed text+<output> element; "
+        "pretty_print False and True (convert(), Survey.print_xform_to_file() and, for a quarter of the cases, the file-to-file entry point xls2xform_convert()); texts that quote serialiser markup or hold U+2028/U+2029/U+0085; non-trivial = accepted form whose output has >=1 mixed text+<output> element; "
         "distinct by SHA-1 of the case JSON")
 ASSUMPTIONS = ["both outputs are parsed by libxml2; whitespace-only text is ignored only in elements that have element children other than <output/> and no non-blank text"]
 BUDGET = {"quick": 12000, "thorough": 400000}
@@ -41,7 +41,19 @@ def _cases(draw):
                 for k in list(r):
                     if k.split("::")[0] == "label" and g.p("_", 0.3):
                         r[k] = r[k] + " a" + g.pick(["\u2028", "\u2029", "\x85"]) + "b"
-    return {"form": form}
+    if g.p("_", 0.15):
+        # text that quotes markup the serialiser itself writes (a training form about XForms): it is text, in both modes
+        quoted = [' xmlns:odk="http://www.opendatakit.org/xforms" ', ' xmlns="u" x', "a\n    <h:head> b", "see <label> here", ' <?xml version="1.0"?>', "a />\n  b", ' xmlns:jr="x"']
+        for n, _ in model.walk(form["nodes"]):
+            for k in list(n["c"]):
+                if k.split("::")[0] in ("label", "hint", "constraint_message", "required_message", "guidance_hint") and g.p("_", 0.3):
+                    n["c"][k] = n["c"][k] + " add" + g.pick(quoted) + "to it"
+        for lst in form.get("lists", []):
+            for r in lst["rows"]:
+                for k in list(r):
+                    if k.split("::")[0] == "label" and g.p("_", 0.2):
+                        r[k] = r[k] + " add" + g.pick(quoted) + "to it"
+    return {"form": form, "file_api": g.p("_", 0.25)}
 
 
 def strategy(tier):
@@ -108,6 +120,8 @@ def evaluate(case) -> Outcome:
         finally:
             import shutil
             shutil.rmtree(d_, ignore_errors=True)
+    if case.get("file_api") and ca == cb:
+        file_api(out, form, ca)
     out.checked("C15.warnings")
     if a.warnings != b.warnings:
         out.fail("C15.warnings", "", f"{a.warnings} vs {b.warnings}")
@@ -117,3 +131,47 @@ def evaluate(case) -> Outcome:
     if mixed:
         out.label("mixed-content")
     return out
+
+
+def file_api(out, form, want):
+    """xls2xform_convert(): the file-to-file entry point behind the command line tool writes the same document in both modes"""
+    import os
+    import shutil
+    import tempfile
+
+    from pyxform.xls2xform import xls2xform_convert
+
+    from vf import render
+    d_ = tempfile.mkdtemp(prefix="vf_c15f_")
+    try:
+        f = dict(form)
+        f.setdefault("args", {})
+        if render.md_ok(f):
+            src = os.path.join(d_, "form.md")
+            with open(src, "w", encoding="utf-8") as fh:
+                fh.write(render.to_md(f))
+        else:
+            src = os.path.join(d_, "form.xlsx")
+            with open(src, "wb") as fh:
+                fh.write(render.to_xlsx(f))
+        # the reference for a file delivery is the compact document of the same file (ids and titles default to the file name)
+        trees = {}
+        for mode in (False, True):
+            out.checked("C15.file-api")
+            dst = os.path.join(d_, f"o{int(mode)}.xml")
+            try:
+                xls2xform_convert(src, dst, validate=False, pretty_print=mode)
+                with open(dst, encoding="utf-8", newline="") as fh:
+                    trees[mode] = xform.canon(xform.parse(fh.read()))
+            except xform.IllFormed as e:
+                out.fail("C15.file-api", "ill-formed", f"xls2xform_convert(pretty_print={mode}): {e}")
+                return
+            except Exception as e:  # noqa: BLE001
+                out.label("file-api-refused:" + type(e).__name__)
+                return
+        out.label("file-api")
+        if trees[False] != trees[True]:
+            dd = xform.canon_diff(trees[False], trees[True]) or "?"
+            out.fail("C15.file-api", "text" if ": text " in dd else "attr" if ": attr " in dd else "structure", f"xls2xform_convert compact vs pretty: {dd}")
+    finally:
+        shutil.rmtree(d_, ignore_errors=True)
